@@ -12,6 +12,7 @@ LEVEL = "proof"
 DRIVERS = ["driver_c14"]
 TRUSTED = ["model: coq/Model/NpWrap.v (construct, init_out = _initialize_tsd_output, array_ufunc, array_function, mixed_ufunc, concat_tsd incl. _check_time_equals, "
            "split_tsd incl. np.split/np.array_split division points, split_other) over Model/Restrict.v and Model/Iset.v; theorems: Proofs/NpWrapProofs.v",
+           "follows /repo as repaired: 0-d results passed through, multi-output ufuncs wrapped per output (array_ufunc_multi), np.array_split divides the index with np.array_split",
            "PARTIAL: what a NumPy function computes is a parameter of every wrapper theorem (Section variable f with the single law 'an array result fills its shape'); "
            "the commuting diagram values(wrap f x) = f(values x) is proved of the model and tied to /repo by exact comparison with the same NumPy call on the raw array",
            "NumPy's contracts transcribed in the model: row-major concatenate along axis 0 (cat0), np.split/np.array_split division points, np.allclose broadcasting (1-d)"]
@@ -112,7 +113,7 @@ def call(f, *a):
         return ("exc", type(ex).__name__)
 
 
-ERRMAP = {"Index": "IndexError", "AssertLen": "AssertionError", "AssertDim": "AssertionError", "RuntimeDim": "RuntimeError",
+ERRMAP = {"AssertLen": "AssertionError", "AssertDim": "AssertionError", "RuntimeDim": "RuntimeError",
           "RuntimeOrder": "RuntimeError", "ValueSplit": "ValueError", "ValueBroadcast": "ValueError"}
 
 
@@ -201,7 +202,10 @@ def table(nap):
     for u in ["bitwise_and", "left_shift", "gcd"]:
         for kind in ["scalar", "array"]:
             add(u, "ew", (lambda X, o, u=u: getattr(np, u)(X, o)), kind, np.int64)
-    add("divmod", "ew_multi", lambda X, o: np.divmod(X, o), "scalar")
+    for kind in ["scalar", "array", "row"]:
+        add("divmod", "ew_multi", lambda X, o: np.divmod(X, o), kind)
+    add("opdivmod", "ew_multi", lambda X, o: divmod(X, o), "scalar")
+    add("divmod:r", "ew_multi", lambda X, o: np.divmod(o, X), "array")
     # operators
     ops = {"neg": lambda X, o: -X, "abs": lambda X, o: abs(X), "+": lambda X, o: X + o, "r+": lambda X, o: o + X, "-": lambda X, o: X - o, "r-": lambda X, o: o - X,
            "*": lambda X, o: X * o, "/": lambda X, o: X / o, "r/": lambda X, o: o / X, "//": lambda X, o: X // o, "**": lambda X, o: X ** o, "%": lambda X, o: X % o,
@@ -256,6 +260,12 @@ def table(nap):
     for ax in [None, 0, -1]:
         add("flip(%s)" % ax, "plain", (lambda X, o, ax=ax: np.flip(X, ax)))
     add("roll(1,axis=0)", "plain", lambda X, o: np.roll(X, 1, axis=0))
+    # permutations of the columns (axis 1): same shape, so labels are kept - the DATA columns move
+    add("roll(1,axis=1)", "plain", lambda X, o: np.roll(X, 1, axis=1))
+    add("flip(1)", "plain", lambda X, o: np.flip(X, 1))
+    add("fliplr", "plain", lambda X, o: np.fliplr(X))
+    add("take(reversed,axis=1)", "plain", lambda X, o: np.take(X, list(range(X.shape[1]))[::-1], axis=1))
+    add("flipud", "plain", lambda X, o: np.flipud(X))
     for ax in [None, 0, -1]:
         add("repeat(2,%s)" % ax, "plain", (lambda X, o, ax=ax: np.repeat(X, 2, axis=ax)))
     add("tile(2)", "plain", lambda X, o: np.tile(X, 2))
@@ -364,15 +374,25 @@ def run_wrap(nap, res, tier):
             nontriv = isinstance(e, np.ndarray) and e.ndim >= 1 and shape[0] >= 1
             res.case(("wrap", name, operand, shape), nontrivial=nontriv)
             cases.append((inp, tag, x, e, got))
-            lines.append("func\t%d\t%s\t%s" % (KINDNUM[tag], ts6(nap, x), npres_arg(e)))
+            if tag == "ew_multi":
+                lines.append("ufunc_multi\t1\t1\t%s\t%d\t%s" % (ts6(nap, x), len(e), "\t".join(npres_arg(q) for q in e)))
+            else:
+                lines.append("func\t%d\t%s\t%s" % (KINDNUM[tag], ts6(nap, x), npres_arg(e)))
     out = C.run_model(lines, driver="driver_c14")
     for (inp, tag, x, e, got), mo in zip(cases, out):
-        m = parse_out(mo)
+        m = parse_out(mo.split(" ; ")[0]) if tag == "ew_multi" else parse_out(mo)
         res.count("verdict:" + m["kind"])
         n = x.shape[0]
         # ---- correspondence: extracted model vs implementation
         size = int(np.prod(e.shape)) if isinstance(e, np.ndarray) else 0
-        why = agree(nap, m, got, cells_expected=list(range(size)))
+        if tag == "ew_multi":
+            ms = [parse_out(q) for q in mo.split(" ; ")]
+            if got[0] != "ok" or not isinstance(got[1], tuple) or len(got[1]) != len(ms):
+                why = "model: tuple of %d wrapped outputs" % len(ms)
+            else:
+                why = next((w for w in (agree(nap, mq, ("ok", rq), cells_expected=list(range(eq.size))) for mq, rq, eq in zip(ms, got[1], e)) if w is not None), None)
+        else:
+            why = agree(nap, m, got, cells_expected=list(range(size)))
         if why is not None:
             res.disagreements.append({"op": "wrap", "input": inp, "model": mo[:200], "impl": got[1] if got[0] == "exc" else type(got[1]).__name__, "why": why})
         # ---- statement-level oracle on the implementation (independent of the model)
@@ -399,8 +419,26 @@ def run_wrap(nap, res, tier):
                 viol(res, {"op": "array_function", "part": "columns"}, "column count unchanged but the column labels are lost", inp, impl=cols_of(nap, r), expected=cols_of(nap, x))
         if tag == "ew" and isinstance(e, np.ndarray) and e.shape == x.shape and not (is_nap(nap, r) and type(r) is type(x)):
             viol(res, {"op": "ufunc", "part": "elementwise_not_wrapped"}, "element-wise operation did not return a time series of x's class", inp, impl=type(r).__name__)
-        if tag == "ew_multi" and not (isinstance(r, tuple) and all(is_nap(nap, q) for q in r)):
-            viol(res, {"op": "ufunc", "part": "multi_output"}, "element-wise ufunc with two outputs returns raw arrays (time axis dropped)", inp, impl=[type(q).__name__ for q in r])
+        if tag == "ew_multi":
+            res.count("multi_output_ufunc")
+            if not (isinstance(r, tuple) and all(is_nap(nap, q) and type(q) is type(x) for q, eq in zip(r, e) if eq.shape == x.shape)):
+                viol(res, {"op": "ufunc", "part": "multi_output"}, "element-wise ufunc with two outputs returns raw arrays (time axis dropped)", inp, impl=[type(q).__name__ for q in r])
+            else:
+                for q in r:
+                    if is_nap(nap, q) and (ticks_of(q) != ticks_of(x) or sup_of(q) != sup_of(x)
+                                           or (isinstance(x, nap.TsdFrame) and isinstance(q, nap.TsdFrame) and q.shape[1] == x.shape[1] and cols_of(nap, q) != cols_of(nap, x))):
+                        viol(res, {"op": "ufunc", "part": "multi_output_time_axis"}, "an output of a multi-output ufunc does not carry x's timestamps / support / labels", inp)
+        # observation (NOT a violation: the statement keeps labels whenever the column count is unchanged): frame -> frame, same
+        # labels in the same order, but the data columns are a non-trivial permutation of x's
+        if isinstance(x, nap.TsdFrame) and isinstance(r, nap.TsdFrame) and r.shape == x.shape and 2 <= x.shape[1] <= 5 and n >= 1 \
+                and cols_of(nap, r) == cols_of(nap, x) and not np.array_equal(r.values, x.values):
+            xv = np.asarray(x.values)
+            if any(np.array_equal(np.asarray(r.values), xv[:, list(pm)]) for pm in itertools.permutations(range(x.shape[1]))):
+                res.count("observed:frame_data_columns_permuted_labels_unchanged")
+                res.extra.setdefault("observed_column_permutations", [])
+                if inp["function"] not in [o_["function"] for o_ in res.extra["observed_column_permutations"]]:
+                    res.extra["observed_column_permutations"].append({"function": inp["function"], "shape": inp["shape"], "labels": cols_of(nap, r),
+                                                                      "x_row0": xv[0].tolist(), "result_row0": np.asarray(r.values)[0].tolist()})
         if len(res.samples) < 3 and isinstance(e, np.ndarray) and e.ndim >= 1 and n == 2 and e.shape[0] == 2 and e.shape != x.shape \
                 and inp["function"] in ("add", "sum(axis=0)", "transpose"):
             res.sample({"function": inp["function"], "operand": inp["operand"], "x.shape": list(x.shape), "result.shape": list(e.shape), "returned": type(r).__name__})
